@@ -51,31 +51,6 @@ fn shim_strip_prefix_then_throwable<'a>(line: &'a str, lit: &str) -> (r: Option<
     ensures r == sp_after_prefix(line, lit@),
 { line.strip_prefix(lit).and_then(parse_throwable) }
 
-// ---- iterators of frames: the items an iterator will yield, as a ghost sequence ----
-pub uninterp spec fn iter_items<I: Iterator>(it: I) -> Seq<I::Item>;
-#[verifier::reject_recursive_types(I)]
-#[verifier::external_type_specification]
-#[verifier::external_body]
-pub struct ExPeekable<I: Iterator>(std::iter::Peekable<I>);
-pub uninterp spec fn pk_rest<I: Iterator>(p: std::iter::Peekable<I>) -> Seq<I::Item>;
-#[verifier::external_body]
-fn shim_peekable<I: Iterator>(it: I) -> (r: std::iter::Peekable<I>) ensures pk_rest(r) == iter_items(it) { it.peekable() }
-#[verifier::external_body]
-fn shim_peek_is_none<I: Iterator>(p: &mut std::iter::Peekable<I>) -> (r: bool)
-    ensures r == (pk_rest(*old(p)).len() == 0), pk_rest(*final(p)) == pk_rest(*old(p)),
-{ std::iter::Peekable::peek(p).is_none() }
-#[verifier::external_body]
-fn shim_peek_is_some<I: Iterator>(p: &mut std::iter::Peekable<I>) -> (r: bool)
-    ensures r == (pk_rest(*old(p)).len() > 0), pk_rest(*final(p)) == pk_rest(*old(p)),
-{ std::iter::Peekable::peek(p).is_some() }
-#[verifier::external_body]
-fn shim_peek_next<I: Iterator>(p: &mut std::iter::Peekable<I>) -> (r: Option<I::Item>)
-    ensures match r {
-        Some(x) => pk_rest(*old(p)).len() > 0 && x == pk_rest(*old(p))[0] && pk_rest(*final(p)) == pk_rest(*old(p)).drop_first(),
-        None => pk_rest(*old(p)).len() == 0 && pk_rest(*final(p)) == pk_rest(*old(p)),
-    },
-{ Iterator::next(p) }
-
 // ---- the specification of C07 ----
 pub open spec fn nl() -> Seq<char> { seq!['\n'] }
 // a throwable line (first line): the remapped throwable when its class is known, the input line otherwise
